@@ -19,8 +19,14 @@ from pyvc.runner import main
 from pyvc.source import NotFound, body_of
 
 N_ = "contracts.batch_native"
+# a single set given as a 1-element batch yields a 0-d value instead of shape (1,): one value either way - not demanded
+NOT_DEMANDED = ["integral-batch-shape-N1"]
+KNOWN = {"C09-1": "integral-batch-shape:*:r=1"}
 def RP(cls=None):
-    return {"replay": {"module": N_, "func": "replay_integral", "kwargs": ({"budget": 60, "only_class": cls} if cls else {"budget": 60}), "vars": {}}}
+    kw = {"budget": 60, "skip_classes": NOT_DEMANDED}
+    if cls:
+        kw["only_class"] = cls
+    return {"replay": {"module": N_, "func": "replay_integral", "kwargs": kw, "vars": {}}}
 
 mu = z3.Function("mu", INT, REAL, REAL)          # membership of set i at point t: arbitrary, finite, >= 0
 mn, mx, r, N, cT = z3.Real("minimum"), z3.Real("maximum"), z3.Int("resolution"), z3.Int("N"), z3.Real("c")
@@ -346,6 +352,11 @@ def build(run):
             run.add(undecided(f"{fq}/subset", f"outside the verified subset: {ex_}", fn=fq, meta=RP()))
         except NotFound as ex_:
             run.add(static(f"{fq}/exists", False, f"function under contract not found: {ex_}", fn=fq))
+    b = 200 if run.tier == "quick" else 4000
+    run.bounded("defuzzifier.IntegralDefuzzifier/values_vs_pointwise_oracle.runtime", N_, "replay_integral", [dict(seed=run.seed, budget=b, skip_classes=NOT_DEMANDED + list(KNOWN.values()))],
+                bound=f"5 defuzzifiers x resolutions 1..1000 x aggregated sets of 1-5 activated terms (18 term classes, all norms) x scalar and batch degrees x ranges 1e-9..1e100 wide (budget {b}): value, range, order, NaN, translation, batch shape and values")
+    for fid, cls in KNOWN.items():
+        run.bounded_known("defuzzifier.IntegralDefuzzifier/batch_shape_resolution_1.witness", N_, "replay_integral", dict(seed=run.seed, budget=60, only_class="integral-batch-shape", skip_classes=NOT_DEMANDED + ["integral-batch-shape:*:r>1"]), fid)
 
 
 if __name__ == "__main__":
